@@ -93,7 +93,7 @@ class Report:
         samples = samples[:80]
         replay_paths = []
         if viol:
-            rdir = os.path.join(VERIF, "replay")
+            rdir = os.environ.get("VERIF_REPLAY_DIR") or os.path.join(VERIF, "replay")
             os.makedirs(rdir, exist_ok=True)
             for i, o in enumerate(viol):
                 p = os.path.join(rdir, f"{self.pid}-{i}.json")
@@ -139,7 +139,8 @@ class Report:
             "wall_s": round(wall, 3),
             "violations": len(viol),
         }
-        edir = os.path.join(VERIF, "evidence")
+        # evidence of a run against a scratch tree (seed evaluation, self-test) must not replace the evidence of /repo
+        edir = os.environ.get("VERIF_EVIDENCE_DIR") or os.path.join(VERIF, "evidence")
         os.makedirs(edir, exist_ok=True)
         with open(os.path.join(edir, f"{self.pid}.json"), "w") as f:
             json.dump(ev, f, indent=1, sort_keys=False)
